@@ -130,6 +130,7 @@ class World {
   // scheduled harness actions
   void at(uint64_t t, std::function<void()> fn);
   void after(uint64_t dt, std::function<void()> fn) { at(now + dt, fn); }
+  void at_world(uint64_t t, std::function<void()> fn);   // an action of the world itself (not of the application under test)
 
   // run until nothing is pending (no datagram in flight, no action, no library timer) or until the
   // virtual horizon `until` / the step cap is reached.  Returns true when quiescent.
@@ -154,7 +155,7 @@ class World {
   struct Pending {
     uint64_t at;
     uint64_t seq;
-    int kind;  // 0 datagram, 1 action, 2 stream chunk to lib sock, 3 stream eof to lib sock
+    int kind;  // 0 datagram, 1 application action, 2 (unused), 3 stream eof to lib sock, 4 action of the world itself
     Datagram d;
     std::function<void()> fn;
     int fd = -1;
